@@ -206,7 +206,7 @@ impl CaseKind for FwdCase {
         json!({"op": format!("{:?}", self.op), "operand_dims": self.dims()})
     }
     fn run(&self) -> Outcome {
-        let mut m = RefState::new(0);
+        let mut m = RefState::forward_only();
         let mut ex = Exec::new();
         let mut args = vec![];
         for (i, l) in self.leaves.iter().enumerate() {
@@ -397,7 +397,8 @@ impl CaseKind for GradCase {
     fn run(&self) -> Outcome {
         let hist = self.history();
         let n = self.leaves.len();
-        let mut m = RefState::new(1 << 20);
+        // only the leaves need tangent directions here (their gradients are what is judged)
+        let mut m = RefState::new(0);
         let mut ex = Exec::new();
         let dims = self.dims();
         let key = key_of("grad", &self.op, &self.leaves, (self.seed.is_some() as u64) * 16 + self.uses as u64 + 64 * self.passes as u64 + 1024 * self.same_operand as u64);
